@@ -38,6 +38,12 @@ def run_one(m, args):
                 res['status'] = f"not-applicable: 'old' occurs {src.count(ch['old'])} times in {ch['file']}"
                 return res
             open(path, 'w').write(src.replace(ch['old'], ch['new']))
+        if m.get('regen_parser'):
+            # the mutant edits the grammar: regenerate parser.py from it, as a developer would
+            subprocess.run(['/venv/bin/python', '-c',
+                            "import tatsu;g=open('beanquery/parser/bql.ebnf').read();"
+                            "open('beanquery/parser/parser.py','w').write(tatsu.to_python_sourcecode(g))"],
+                           cwd=copy, check=True, timeout=120)
         env = dict(os.environ)
         env['BEANQUERY_VERIF_REPO'] = copy
         env['BQVERIF_EVIDENCE_DIR'] = os.path.join(tmp, 'evidence')
